@@ -1,5 +1,6 @@
 import Resgate.Proofs.GwPure
 import Resgate.Proofs.QIdx
+import Resgate.Gw.Reset
 
 /-
 C13 — Query resources: atomic query-event handling (the lock).
@@ -55,5 +56,28 @@ theorem new_query_registered (x : Gw.QIdx) (q : String) (rs : Nat) (hnone : x.lo
 -- non-vacuity: "q=a" and "q=b" both normalise to "q=n1"
 example : let x := ((({} : Gw.QIdx).register "q=a" 1).link "q=a" 2 |>.register "q=n1" 2 |>.link "q=b" 2)
     x.lookup "q=a" = some 2 ∧ x.lookup "q=b" = some 2 ∧ x.lookup "q=n1" = some 2 := by decide
+
+/-- **One request per cached normalised query** (`handleQueryEvent`, the plan the model's cache
+    actor executes): a query event takes exactly one lock slot per cached query of the entry; the
+    queries whose resource is loaded are asked — each once, each with its own normalised query and
+    for its own resource — and the ones still being fetched get a no-op slot, so the lock opened
+    with capacity `queries.length` closes after exactly that many arrivals (`lock_clears_iff`). -/
+theorem query_event_plan (e : Entry) :
+    (queryPlan e).length = e.queries.length ∧
+    (queryPlan e).map (fun p => (p.1, p.2.1)) = e.queries ∧
+    (∀ q rs asked, (q, rs, asked) ∈ queryPlan e →
+      (q, rs) ∈ e.queries ∧ (asked = true ↔ (tget e.ress rs).state.toNat > 2)) := by
+  unfold queryPlan
+  refine ⟨by simp, ?_, ?_⟩
+  · rw [List.map_map]
+    conv => rhs; rw [← List.map_id e.queries]
+    apply List.map_congr_left
+    intro a _; rfl
+  · intro q rs asked h
+    rw [List.mem_map] at h
+    obtain ⟨⟨q', rs'⟩, hm, he⟩ := h
+    simp only [Prod.mk.injEq] at he
+    obtain ⟨rfl, rfl, rfl⟩ := he
+    exact ⟨hm, by simp⟩
 
 end Resgate.C13
